@@ -55,3 +55,7 @@ claim("C16", "exhaustive single-fault (thorough: two-fault) enumeration over eve
   "One transient fault is injected at every write call of the session (plain error and every short length), with and without retrying the failed put; the faulted call must report the error, the failed block must not be reported stored, and whenever the continuation succeeds the archive must strictly decode to exactly the successfully put blocks.",
   "Faults are transient; if later calls keep failing nothing is asserted (as the property states).",
   "DESIGN.md 5/C16")
+claim("C08", "stateless model checking of the implementation: controlled cooperative scheduler over mechanically rewritten sources (sync/go/select/close -> shim), depth-first enumeration of all schedules with iterative pre-emption bounding; per-schedule vector-clock race check, porcupine linearizability, deadlock/panic detection",
+  "All schedules of 12 small colliding scenarios (3-4 threads plus AllKeysChan goroutines) x 3 configurations are enumerated up to pre-emption bound 2 (quick) / 4 (thorough) on the real blockstore, storage and deferred-writer code; each schedule is judged for panics, deadlock, happens-before races on the index and writer objects, linearizability w.r.t. a set model, listing consistency and a strictly well-formed final file. A free-running -race pass is a separately reported sampling complement.",
+  "Scheduling points only at lock acquisition, channel operations, goroutine start and harness yields; unhooked unsynchronised memory only seen by the sampling -race complement; 16 goroutines not explored exhaustively; the shim models Go's RWMutex writer preference.",
+  "DESIGN.md 5/C08, A.1")
